@@ -99,6 +99,9 @@ def sliceAxis [Inhabited α] (ax start stop step : Nat) (t : Tensor α) : Tensor
   ofFn (t.shape.set ax (sliceLen start stop step (t.shape.getD ax 0)))
     fun idx => t.val (idx.set ax (start + idx.getD ax 0 * step))
 
+/-- `t.copy()`: the same values (fresh storage is not part of a value model) -/
+def copy (t : Tensor α) : Tensor α := ⟨t.shape, t.data⟩
+
 /-- `t.T` (all axes reversed) -/
 def transpose [Inhabited α] (t : Tensor α) : Tensor α :=
   ofFn t.shape.reverse fun idx => t.val idx.reverse
